@@ -86,7 +86,8 @@ def generate(seed, tier):
     ops = []
     rate = rng.choice([0.0, 0.05, 0.15, 0.3, 0.6])
     Ms = rng.sample(ORDERS, rng.randint(1, 3)) if rng.random() < 0.8 else ORDERS
-    w = {"frame": 10, "sdd": 4, "gv": 1, "bad": 1, "reseed": rng.choice([0, 1, 2]), "d2b": rng.choice([0, 1])}
+    w = {"frame": 10, "sdd": 4, "gv": 1, "bad": 1, "reseed": rng.choice([0, 1, 2]), "d2b": rng.choice([0, 1]),
+         "leak": rng.choice([0, 0, 1])}
     kinds = [k for k, c in w.items() for _ in range(c)]
     for _ in range(rng.randint(6, 16)):
         k = rng.choice(kinds)
@@ -119,6 +120,8 @@ def generate(seed, tier):
                         "M": rng.choice([4, 8, 16])})
         elif k == "reseed":
             ops.append({"op": "reseed", "s": rng.getrandbits(31)})
+        elif k == "leak":
+            ops.append({"op": "leak", "upto": rng.choice([40, 70, 140]), "every": rng.choice([1, 1, 3])})
         elif k == "d2b":
             M = rng.choice(Ms)
             ops.append({"op": "d2b", "v": rng.randrange(M), "k": M.bit_length() - 1})
@@ -507,6 +510,28 @@ class Link:
         return core.array_digest(np.array(got))[:10]
 
     # ---- invalid arguments ------------------------------------------------------------------------------
+    def op_leak(self, op):
+        """Rejected calls pile up on the library's timer stack; the codec must keep working and keep giving the same
+        words at every depth."""
+        bits = [1, 0, 1, 1, 0, 0, 0, 1, 1, 1, 0, 1]
+
+        def reject():
+            try:
+                self.ppm.HDD([1, 0, 0], 3)
+            except ValueError:
+                pass
+
+        def valid():
+            enc = self.ppm.PPM_ENCODER(bits, 8)
+            np.random.seed(7)
+            hd = self.ppm.HDD(enc, 8)
+            dec = self.ppm.PPM_DECODER(hd, 8)
+            if dec.data.tolist() != bits:
+                raise Violation("C12/roundtrip", f"leak: decode(HDD(encode(b))) != b at timer-stack depth "
+                                                 f"{seams.timer_stack_depth()}", "roundtrip/leak")
+            return core.array_digest(enc.data) + core.array_digest(dec.data)
+        return common.leak_sweep(reject, valid, op["upto"], "C12/roundtrip", self.rec, op.get("every", 1), "codec call")
+
     def op_bad(self, op):
         what = op["what"]
         M = op["M"]
